@@ -80,6 +80,12 @@ func NewPebbleScanner(dbPath string, opts PebbleScannerOptions) (*PebbleScanner,
 	// 1. Path Sanitization
 	// We prevent the engine from initializing in sensitive system roots.
 	// This captures cases where a misconfigured env var points the DB to /etc or /root.
+	// Pebble builds the names of its files with filepath.Join, i.e. on the lexically cleaned
+	// path, while the operating system resolves `link/..` against the link's target. Clean the
+	// spelling first, so that the location checked below, the directory created and the files
+	// written are one and the same (otherwise `link/../../etc/x` passes the check on its
+	// kernel-resolved location and the files land in /etc/x).
+	dbPath = filepath.Clean(dbPath)
 	absPath, err := filepath.EvalSymlinks(dbPath)
 	if err != nil {
 		if !os.IsNotExist(err) {
